@@ -16,7 +16,8 @@ RULE = ("cases: for each documented identity, operands from the generators of th
         "relative in float64, 1e-6 for the loss identities, 2e-4 in float32).  non-trivial: as the underlying op's "
         "predicate and both sides executed without exception and output has >= 2 elements; distinct by hash"
         " Also: Sequential with repeated module instances and with a stage replaced after a first call; mean = sum/count incl. dim=() and NumPy-integer dims."
-        " Round 5: both sides of every identity are differentiated a second time with another upstream gradient.")
+        " Round 5: both sides of every identity are differentiated a second time with another upstream gradient."
+        " Round 7: Sequentials of up to 14 positional stages; the BCE identity with the target as a leaf that requires grad.")
 ASSUMPTIONS = ["moderate logits (|x| <= 8) for the sigmoid/BCE and log(softmax) pairs, as the statement says",
                "both sides are synapgrad computations; no external reference is involved"]
 
